@@ -975,10 +975,12 @@ func isinstance(obj py.Object, classOrTuple py.Object) (py.Bool, error) {
 		}
 		return false, nil
 	default:
-		if classOrTuple.Type().ObjectType != py.TypeType {
+		class, ok := classOrTuple.(*py.Type)
+		if !ok {
 			return false, py.ExceptionNewf(py.TypeError, "isinstance() arg 2 must be a type or tuple of types")
 		}
-		return obj.Type() == classOrTuple, nil
+		// An instance of a subclass is an instance of the class too
+		return py.NewBool(obj.Type().IsSubtype(class)), nil
 	}
 }
 
